@@ -190,10 +190,14 @@ func (r *Run) Violation(key, detail string, files Replay) {
 		}
 	}
 	r.counters["violation_events"]++
-	if r.vioKeys[key] && len(r.violations) >= 3 {
+	max := 12
+	if m, err := strconv.Atoi(os.Getenv("VERIF_MAXVIOL")); err == nil && m > 0 {
+		max = m
+	}
+	if r.vioKeys[key] && (len(r.violations) >= 3 || max > 12) {
 		return // same key already reported; keep output short
 	}
-	if len(r.violations) >= 12 {
+	if len(r.violations) >= max {
 		return
 	}
 	r.vioKeys[key] = true
